@@ -208,6 +208,17 @@ type SiteDB struct {
 	EntryMay  map[*types.Func]map[string]bool
 	Exits     map[*FuncInfo][]*ExitRec
 	Fields    []*FieldAccess
+	Blocking  []*Site // channel operations, select statements, go statements (Callee: "<-chan", "chan<-", "select", "go")
+	LockAcqs  []*LockAcq
+}
+
+// LockAcq is one explicit Lock/RLock call with the locks that may be held at that point.
+type LockAcq struct {
+	Site  *Site
+	Token string
+	Class string
+	Mode  string
+	Inst  string
 }
 
 type ExitRec struct {
@@ -502,6 +513,8 @@ func buildSiteDB(l *Loaded, pkgs ...string) *SiteDB {
 		db.ByFunc = map[*FuncInfo][]*Site{}
 		db.Exits = map[*FuncInfo][]*ExitRec{}
 		db.Fields = nil
+		db.Blocking = nil
+		db.LockAcqs = nil
 		for _, fi := range funcs {
 			if fi.Decl.Body != nil {
 				db.analyse(fi)
@@ -713,6 +726,21 @@ func (db *SiteDB) analyse(fi *FuncInfo) {
 			if deferred {
 				s.Must["defer:"+key] = true
 				s.May["defer:"+key] = true
+				if op, _ := mutexOp(key); op == "unlock" {
+					if sel, ok := unparen(call.Fun).(*ast.SelectorExpr); ok {
+						class := db.L.fieldKey(fieldOf(info, sel.X))
+						inst := res.str(sel.X)
+						if ms, ok := unparen(sel.X).(*ast.SelectorExpr); ok {
+							inst = res.str(ms.X)
+						}
+						if class == "" {
+							class = "local." + res.str(sel.X)
+						}
+						for _, m := range []string{"R", "W"} {
+							s.Must["deferunlock:"+lockToken(class, m, inst)] = true
+						}
+					}
+				}
 				return
 			}
 			if op, mode := mutexOp(key); op != "" {
@@ -732,6 +760,7 @@ func (db *SiteDB) analyse(fi *FuncInfo) {
 						t := lockToken(class, mode, inst)
 						s.Locks[t] = true
 						s.MayL[t] = true
+						s.May["acquired:"+t] = true
 						if mode == "W" && strings.HasPrefix(key, "sync.RWMutex.") {
 							// Holding a RWMutex for write implies everything a read hold gives.
 							s.Locks[lockToken(class, "R", inst)] = true
@@ -900,13 +929,38 @@ func (db *SiteDB) analyse(fi *FuncInfo) {
 	a.Visit = func(s *HState, n ast.Node, fc *FlowCtx[*HState]) {
 		snap := hCopy(s)
 		chain := ctxChain(fc)
+		switch v := n.(type) {
+		case *ast.GoStmt:
+			db.Blocking = append(db.Blocking, &Site{Node: v, Callee: "go", Fn: fc.Fn, Root: fi, St: snap, Ctx: chain})
+		case *ast.SelectStmt:
+			db.Blocking = append(db.Blocking, &Site{Node: v, Callee: "select", Fn: fc.Fn, Root: fi, St: snap, Ctx: chain})
+		case *ast.SendStmt:
+			db.Blocking = append(db.Blocking, &Site{Node: v, Callee: "chan<-", Fn: fc.Fn, Root: fi, St: snap, Ctx: chain})
+		}
 		inspectNoLit(n, func(m ast.Node) {
 			switch v := m.(type) {
+			case *ast.UnaryExpr:
+				if v.Op == token.ARROW {
+					db.Blocking = append(db.Blocking, &Site{Node: v, Callee: "<-chan", Fn: fc.Fn, Root: fi, St: snap, Ctx: chain})
+				}
 			case *ast.CallExpr:
 				key := calleeKey(info, v)
 				site := &Site{Node: n, Call: v, Callee: key, Fn: fc.Fn, Root: fi, St: snap, Ctx: chain}
 				db.Calls[key] = append(db.Calls[key], site)
 				db.ByFunc[fi] = append(db.ByFunc[fi], site)
+				if op, mode := mutexOp(key); op == "lock" {
+					if sel, ok := unparen(v.Fun).(*ast.SelectorExpr); ok {
+						class := db.L.fieldKey(fieldOf(info, sel.X))
+						inst := res.str(sel.X)
+						if ms, ok := unparen(sel.X).(*ast.SelectorExpr); ok {
+							inst = res.str(ms.X)
+						}
+						if class == "" {
+							class = "local." + res.str(sel.X)
+						}
+						db.LockAcqs = append(db.LockAcqs, &LockAcq{Site: site, Token: lockToken(class, mode, inst), Class: class, Mode: mode, Inst: inst})
+					}
+				}
 			case *ast.SelectorExpr:
 				if fld := fieldOf(info, v); fld != nil {
 					db.Fields = append(db.Fields, &FieldAccess{Sel: v, Field: fld, Key: l.fieldKey(fld), Write: isWriteTarget(l, v), Root: fi, Fn: fc.Fn, St: snap})
